@@ -145,6 +145,7 @@ struct Run {
   std::function<void(Run &, const Step &)> extra_step;     // profile-specific step handler
   std::function<void(Run &)> after_step;                   // profile-specific invariant
   std::function<void(Run &)> at_end;                       // profile-specific history oracle
+  std::vector<std::function<void(Run &)>> world_ready;     // called once the world has been reset and configured
   std::function<void(Run &, Req &)> on_done;               // profile-specific per-completion oracle
   std::function<bool(Run &, const Step &)> pre_req;          // may take over an S_REQ step (returns true if it did)
   int max_tries_seen = 0;
